@@ -144,6 +144,12 @@ def extract():
                                 "if self._spa is not None:\n    await self._spa.disconnect()\n    self._spa = None",
                                 "self._facade = None",
                                 "self._spa_state = GeckoSpaState.IDLE"],
+        "facade_cleared_last_descriptors_twice": ["self._spa_descriptors = None",
+                                                  "if self._facade is not None:\n    await self._facade.disconnect()",
+                                                  "if self._spa is not None:\n    await self._spa.disconnect()\n    self._spa = None",
+                                                  "self._facade = None",
+                                                  "self._spa_descriptors = None",
+                                                  "self._spa_state = GeckoSpaState.IDLE"],
     }
     shape = [k for k, v in reset_shapes.items() if v == ar]
     if not shape:
@@ -226,7 +232,9 @@ def gen_lifecycle():
     t += "(* the if / elif chain of _handle_event: first matching branch; (events, guard, actions) *)\n"
     t += "Definition rules : list (list event * guard * list action) := [\n" + ";\n".join("  ([%s], %s, [%s])" % ("; ".join(ev), g, "; ".join(ac)) for ev, g, ac in rules) + "\n].\n"
     t += "(* async_reset: true = self._facade is cleared only after the spa has been disconnected *)\n"
-    t += "Definition reset_clears_facade_last : bool := %s.\n" % vf.cbool(reset_shape == "facade_cleared_last")
+    t += "Definition reset_clears_facade_last : bool := %s.\n" % vf.cbool(reset_shape.startswith("facade_cleared_last"))
+    t += "(* async_reset: true = self._spa_descriptors is cleared again when the reset finishes (after its last await) *)\n"
+    t += "Definition reset_clears_descriptors_last : bool := %s.\n" % vf.cbool(reset_shape.endswith("descriptors_twice"))
     t += "(* _sequence_pump: an exception of a locate / connect attempt is caught, logged and followed by async_reset (else it ends the task) *)\n"
     t += "Definition pump_survives : bool := %s.\n" % vf.cbool(survives)
     t += "(* _sequence_pump: ERROR_SPA_NOT_FOUND is left by a reset after the discovery timeout (else it is terminal for the pump) *)\n"
